@@ -11,6 +11,9 @@
                                                                            objects of one kind / validator / share
                                                                            placed in different fork versions)
      {"ev":"SubmitBatch","c":{...,"pat":{vs,cs,ss,bad}}}                  one call with 2..3 elements
+     {"ev":"SubmitBig","c":{...,"alt":"big","ai":K,"bad":[class of entry k | ""]}}   one peer message with K entries; the
+                                                                           executor delivers it to several fresh
+                                                                           instances: one trace per delivery
      {"ev":"Deliver","k":entry of the submission (0: not one of them),"val":validator label of the set key,
                      "idx":ShareIdx of the delivered ParSignedData,"dt":duty type the subscriber was called with}
                                                                            one per entry a subscriber received
@@ -33,10 +36,14 @@ TReset == IsEvent("Reset") /\ l = 1 /\ Ev.N = N /\ Ev.V = V /\ UNCHANGED vars
 TSubmit == /\ IsEvent("Submit") /\ IsCase(Ev.c) /\ (IF calls = <<>> THEN TRUE ELSE (SameSig(calls[1], Ev.c) \/ ForkSeq(calls[1], Ev.c)))
            /\ Submit(Ev.c)
 TSubmitBatch == IsEvent("SubmitBatch") /\ IsBatchCase(Ev.c) /\ SubmitBatch(Ev.c)
-TDeliver == /\ IsEvent("Deliver") /\ Ev.k \in 1..3 /\ Deliver(Ev.k)
+IsBigCase(b) == /\ b.path = "peer" /\ b.kind \in Kinds /\ b.ver = DefVer(b.kind) /\ b.node \in 1..N /\ b.val = 1
+                /\ b.sender = SenderOf("peer", b.node) /\ b.alt = "big" /\ b.as = "" /\ b.ai \in BigKs
+                /\ b.bad \in BigPatternsOf(b.ai)
+TSubmitBig == IsEvent("SubmitBig") /\ IsBigCase(Ev.c) /\ SubmitBig(Ev.c)
+TDeliver == /\ IsEvent("Deliver") /\ Ev.k \in DOMAIN msg.entries /\ Deliver(Ev.k)
             /\ Ev.val = msg.entries[Ev.k].val /\ Ev.idx = msg.entries[Ev.k].idx /\ Ev.dt = msg.dt
 TReturn == IsEvent("Return") /\ Return
-TraceNext == TReset \/ TSubmit \/ TSubmitBatch \/ TDeliver \/ TReturn
+TraceNext == TReset \/ TSubmit \/ TSubmitBatch \/ TSubmitBig \/ TDeliver \/ TReturn
 TraceSpec == TraceInit /\ [][TraceNext]_tvars
 Mark == /\ CheckInv("TypeOK", TypeOK) /\ CheckInv("OnlyValidEnter", OnlyValidEnter)
         /\ CheckInv("ValidEnters", ValidEnters) /\ CheckInv("PeerAllOrNothing", PeerAllOrNothing)
